@@ -37,6 +37,13 @@ CLAIMS = {
     text="Bounded model checking of the real decision-tree fit / predict code on symbolic integer features (n<=5 rows, 1-2 features, 2-3 classes, concrete label patterns and small integer weights enumerated per job; Gini and entropy; max_depth None/1/2, min_weight_split/leaf, min_impurity_decrease swept): every feasible path of the sorted sweep and recursion is enumerated (z3), and on each path the fitted tree is walked through the public accessors and recomputed from the training rows: depth limits, two children per split, reached and side weights, reported impurity decrease == recomputed decrease of the criterion and >= the threshold, every training row predicted as the label of its fit-time leaf, leaf label is a most frequent one, only training labels predicted, importances >= 0 summing to one. Rounding of split midpoints is outside the symbolic grid and is covered by concrete adjacent-float instances (adj=40 jobs).",
     technique="symbolic-scalar concolic execution of the compiled generic code + SMT (z3) per path; native f64 replay",
     design_ref="DESIGN.md §4 C14"),
+ "C04": dict(
+    engine="kani",
+    replay="python3 hk/run_kani.py replay {path}",
+    text="Bounded model checking with Kani 0.68 / CBMC 6.11 (CaDiCaL) of the compiled real guards: one proof harness per parameter builder (34 quick, 56 thorough; k-means, DBSCAN, OPTICS, GMM, elastic net single/multi-task, logistic binary/multinomial, Tweedie, Platt, SVM, decision tree, both naive Bayes, FTRL, three PLS variants, t-SNE, FastICA, diffusion map, both random projections, hierarchical clustering, count vectoriser numeric conditions) makes every numeric field kani::any() at full width (all finite bit patterns, -0.0 excluded), builds the parameters through the public builder API and asserts: check_ref is Ok for every value inside the documented range and Err for every value outside it (oracle transcribed from doc comments and #[error] texts; values the documentation leaves ambiguous are claimed by neither side and listed), check and check_ref agree on verdict and variant, getters are unchanged, the error blames a parameter that is out of range. The blanket Fit / FitWith / Transformer impls are checked on a mock ParamGuard (invalid: exactly check_ref's error, trainer entered 0 times; valid: identical to the checked form). Unwinding assertions on; both sides of each iff have a satisfied cover; counterexamples are replayed natively with cargo kani playback before being reported.",
+    technique="Kani/CBMC bounded model checking (SAT, CaDiCaL) of the compiled guards over all bit patterns; concrete playback replay",
+    note="Trusted: Kani 0.68, CBMC 6.11, CaDiCaL; the documented-range oracle. Stubs: regex::Regex::new (count vectoriser), rayon bridges (thorough real-builder harnesses), listed per harness in evidence. Assumed: finite non-NaN floats, -0.0 excluded; unwind bounds per harness (unwinding assertions on). Timeout / OOM / ICE / unsatisfied cover are reported inconclusive, never as a pass.",
+    design_ref="DESIGN.md §3, §4 C04"),
 }
 NA = {
  "C10": "not applicable to solver-based checking within reach: a Gaussian-mixture fit is k-means initialisation + Cholesky factorisations + an EM loop with exp/ln in every step and a data-dependent iteration count; with exp/ln uninterpreted the fitted weights/covariances are unconstrained terms, so positivity, normalisation and the precision-covariance inverse relation cannot be decided, and z3's nonlinear real arithmetic does not get through one EM step (DESIGN.md C10). Only GmmParams::check_ref is covered, under C04.",
@@ -54,7 +61,7 @@ for p in props:
             quick_cmd="python3 check.py %s --tier quick" % pid,
             thorough_cmd="python3 check.py %s --tier thorough" % pid,
             evidence_file="evidence/%s.json" % pid,
-            replay_cmd_template="python3 check.py --replay {path}",
+            replay_cmd_template=c.get("replay", "python3 check.py --replay {path}"),
             engine=c.get("engine", "symx"),
             level_claimed=dict(category="model_checking", text=c["text"], design_ref=c["design_ref"]),
             level_note=c.get("note", S_NOTE),
@@ -65,8 +72,8 @@ m = dict(version=1,
          setup_cmd="python3 check.py --build",
          hooks=dict(guard="rust_ml_linfa_verif", enable="RUSTFLAGS='--cfg rust_ml_linfa_verif' (set in /verif/.cargo/config.toml for the harness builds)",
                     baseline_off_cmd="cd /repo && cargo test --workspace --no-fail-fast --offline", source_commits=hooks_commits, add_only=True),
-         engines=[dict(name="symx", path="symx/ + hs/", serves_properties=sorted(CLAIMS), kind_free_text="symbolic-scalar (concolic) execution of linfa's generic code with z3 over a pipe"),
-                  dict(name="kani", path="hk/", serves_properties=[], kind_free_text="Kani 0.68 / CBMC proof harnesses over concretely typed kernels")],
+         engines=[dict(name="symx", path="symx/ + hs/", serves_properties=[p for p in sorted(CLAIMS) if CLAIMS[p].get("engine", "symx") == "symx"], kind_free_text="symbolic-scalar (concolic) execution of linfa's generic code with z3 over a pipe"),
+                  dict(name="kani", path="hk/", serves_properties=[p for p in sorted(CLAIMS) if CLAIMS[p].get("engine") == "kani"], kind_free_text="Kani 0.68 / CBMC proof harnesses over concretely typed kernels")],
          checks=checks, notes="see DESIGN.md; known_findings.json lists recorded and fixed defects", not_applicable=na)
 json.dump(m, open(os.path.join(ROOT, "MANIFEST.json"), "w"), indent=1)
 print("MANIFEST.json: %d checks, %d not_applicable" % (len(checks), len(na)))
